@@ -286,6 +286,17 @@ def r_sibling(ctx):
     ctx.check(sa == sb and len(sa) == 2, rule, 'add_item~append_item', a.loc(),
               'same keys (item, updated) and same leaf construction up to the put flags',
               'add_item and append_item no longer write the same keys/values: %s vs %s' % ([x[0] for x in sa], [x[0] for x in sb]))
+    r_stored_leaf(ctx, rule)
+
+
+def r_stored_leaf(ctx, rule='R-LEAF'):
+    """what the item API stores: Leaf{header: D::new_header(&v), vector: v} with v = from_slice(the caller's vector), in both
+    entry points (re-evaluated by the properties that read the stored vector / header back: C05, C11, C12)"""
+    F = ctx.F
+    a = F.one('writer::Writer::<D>::add_item')
+    b = F.one('writer::Writer::<D>::append_item')
+    if not ctx.need(a is not None and b is not None, rule, 'add_item and append_item'):
+        return
     # leaf = Leaf{header: D::new_header(&v), vector: v}, v = from_slice(vector param)
     for f in (a, b):
         for (_f, c, op, w, k) in db_ops(F, [f]):
